@@ -2359,9 +2359,11 @@ class Mesher:
             nodes = set(connect_r.ravel()) - otherRankNodes
             dict_rank_nodes[rank].update(nodes)
             Nn += len(nodes)
-            # find ghost elements
+            # find ghost elements: every element of another rank touching a node this rank owns,
+            # whichever element group the node was claimed in (dict_rank_nodes is shared by the
+            # groups), so that the rows of the owned nodes are complete in every group
             # Convert to array once and reuse
-            nodes_arr = np.array(list(nodes), dtype=int)
+            nodes_arr = np.array(list(dict_rank_nodes[rank]), dtype=int)
             ghost_idx = set()
             for other_rank in range(Nproc):
                 if other_rank == rank:
@@ -2381,6 +2383,8 @@ class Mesher:
                 np.concatenate([idx_r, np.array(list(ghost_idx), dtype=int)])
             )
             connect_r_full = connect[all_idx]
+            # (non-ghost) nodes of this group: the nodes the rank owns among those the group uses
+            nodes_arr = np.intersect1d(nodes_arr, connect_r_full)
             # create groupElem with owned + ghost elements
             groupElem = GroupElemFactory._Create(gmshId, connect_r_full, coordinates)
             groupElem._Set_partitioned_data(
